@@ -328,6 +328,15 @@ impl<C: Cfg> World<C> {
         };
         self.flav[s] = fl;
         self.model[s].clear();
+        // a fixed-capacity backend must report its stated capacity before anything is stored
+        if let Some(fc) = fl.fixed_cap() {
+            if v.capacity() != fc {
+                let got = v.capacity();
+                self.vecs[s] = Some(v);
+                self.fail(MON_CAP | MON_MODEL, "construct:fixed-cap", format!("a fresh {} vector of {} reports capacity {} instead of {}", fl.name(), C::T::NAME, got, fc));
+                return;
+            }
+        }
         let cap = fl.fixed_cap().unwrap_or(usize::MAX);
         let n = len.min(cap);
         for _ in 0..n {
